@@ -29,6 +29,24 @@ Proof. exact (update_inv folder id folder_eqb id_eqb folder_eqb_spec id_eqb_spec
 Theorem C20_removed_is_gone x f i :
   has_doc folder id folder_eqb id_eqb f i (ix_remove folder id folder_eqb id_eqb x f i) = false.
 Proof. exact (remove_gone folder id folder_eqb id_eqb x f i). Qed.
+(* whole-folder operations: a folder forgotten / deleted (remove_vault) and a forced overwrite
+   (remove_vault then add_folder) *)
+Theorem C20_inv_remove_vault x f : Inv x -> Inv (ix_remove_vault folder id folder_eqb id_eqb x f).
+Proof. exact (remove_vault_inv folder id folder_eqb id_eqb folder_eqb_spec x f). Qed.
+Theorem C20_inv_force x f ds : Inv x -> Inv (ix_force folder id folder_eqb id_eqb x f ds).
+Proof. exact (force_inv folder id folder_eqb id_eqb folder_eqb_spec id_eqb_spec x f ds). Qed.
+Theorem C20_forgotten_folder_is_gone x f d :
+  In d (docs folder id (ix_forget folder id folder_eqb id_eqb x f)) -> in_folder folder id folder_eqb f d = false.
+Proof. exact (forget_gone folder id folder_eqb id_eqb id_eqb_spec x f d). Qed.
+Theorem C20_forget_keeps_other_folders x f :
+  docs folder id (ix_forget folder id folder_eqb id_eqb x f)
+  = filter (fun e => negb (in_folder folder id folder_eqb f e)) (docs folder id x).
+Proof. exact (remove_vault_docs folder id folder_eqb id_eqb id_eqb_spec x f). Qed.
+Theorem C20_force_is_rebuild_of_folder x f ds :
+  (forall d, In d ds -> d_folder folder id d = f) -> NoDup (map (d_id folder id) ds) ->
+  docs folder id (ix_force folder id folder_eqb id_eqb x f ds)
+  = filter (fun e => negb (in_folder folder id folder_eqb f e)) (docs folder id x) ++ ds.
+Proof. exact (force_docs folder id folder_eqb id_eqb folder_eqb_spec id_eqb_spec x f ds). Qed.
 End C20.
 
 (* non-vacuity: a removal of an absent document leaves the counters alone *)
@@ -38,7 +56,22 @@ Example C20_nonvacuous_remove_absent :
   = ix_add nat nat Nat.eqb Nat.eqb (empty_index nat nat) (mkDoc nat nat 1 7 0%N 2%N false []).
 Proof. reflexivity. Qed.
 
+(* non-vacuity: a forced overwrite replaces the folder's documents and leaves the other folder alone *)
+Example C20_nonvacuous_force :
+  map (fun d => (d_folder nat nat d, d_id nat nat d))
+    (docs nat nat (ix_force nat nat Nat.eqb Nat.eqb
+      (ix_add nat nat Nat.eqb Nat.eqb (ix_add nat nat Nat.eqb Nat.eqb (empty_index nat nat)
+         (mkDoc nat nat 1 7 0%N 2%N true [3%N])) (mkDoc nat nat 2 9 0%N 2%N false []))
+      1 [mkDoc nat nat 1 4 0%N 2%N false []; mkDoc nat nat 1 5 0%N 2%N false []]))
+  = [(2, 9); (1, 4); (1, 5)].
+Proof. reflexivity. Qed.
+
 Print Assumptions C20_inv_empty.
+Print Assumptions C20_inv_remove_vault.
+Print Assumptions C20_inv_force.
+Print Assumptions C20_forgotten_folder_is_gone.
+Print Assumptions C20_forget_keeps_other_folders.
+Print Assumptions C20_force_is_rebuild_of_folder.
 Print Assumptions C20_inv_new.
 Print Assumptions C20_inv_add.
 Print Assumptions C20_inv_remove.
